@@ -40,6 +40,7 @@ type c11W struct {
 	Run   RunCfg           `json:"run"`
 	Graph *model.GraphData `json:"graph"`
 	Ops   []jobOp          `json:"ops"`
+	BigRow bool            `json:"big_row,omitempty"`
 }
 
 func init() {
@@ -82,6 +83,15 @@ func genC11(r *Rng, tier string) *c11W {
 	// result sizes around the worker count (4), the worker queues (10), the merge buffer (40)
 	maxV := []int{3, 6, 12, 45}[r.Intn(4)]
 	w.Graph = gen.Graph(r, gen.GraphOpts{MaxV: maxV, MaxE: maxV * 2})
+	if r.Chance(12) && len(w.Graph.V) > 0 {
+		// a stored row larger than the usual line/scan buffers (64 KiB, 1 MiB)
+		v := w.Graph.V[r.Intn(len(w.Graph.V))]
+		if v.Data == nil {
+			v.Data = map[string]interface{}{}
+		}
+		v.Data["big"] = strings.Repeat("x", []int{65500, 66000, 140000, 1100000}[r.Intn(4)])
+		w.BigRow = true
+	}
 	if r.Chance(30) {
 		w.Run.SlowSite, w.Run.SlowPct = "serializer.go", 20
 	}
@@ -176,6 +186,9 @@ func execC11(w *c11W, x *Exec) *Outcome {
 	}
 	if w.Run.SlowPct > 0 {
 		o.Count("fault:slow_serializer_workers", 1)
+	}
+	if w.BigRow {
+		o.Count("fault:row_larger_than_scan_buffers", 1)
 	}
 	cfg := w.Run.Sim()
 	if cfg.MaxSteps == 0 {
